@@ -35,7 +35,8 @@ RULE = ("each run is a history of 1-12 operations drawn from get (with/without q
         "certificate, redirect or store mutation was exercised")
 PROBES = ["cert_changed_detected", "unreadable_cert_presented", "redirect_hop_checked",
           "first_use_pinned", "pinned_match", "import_applied", "revoke_then_refetch", "tofu_off",
-          "upload_checked", "ec_cert", "first_use_on_failing_endpoint", "overlapping_first_use", "near_miss_pin_imported", "mixed_case_host_spelling", "server_speaks_first_tls12"]
+          "upload_checked", "ec_cert", "first_use_on_failing_endpoint", "overlapping_first_use", "near_miss_pin_imported", "mixed_case_host_spelling", "server_speaks_first_tls12", "failed_import_in_history",
+          "overlapping_ops_different_endpoints"]
 COMPONENTS = {
     "real": ["nauyaca.client.session.GeminiClient (get/upload/delete, redirects)",
              "nauyaca.client.protocol", "nauyaca.security.tofu.TOFUDatabase on a real sqlite file",
@@ -45,8 +46,8 @@ COMPONENTS = {
 ASSUMPTIONS = ["fingerprints are computed by the harness with hashlib over the DER the scripted "
                "server was loaded with, never with the repo's helper"]
 
-CERTS = fx.SERVER_CERTS + fx.EXPIRED_CERTS + fx.BAD_CERTS
-CW = [4] * len(fx.SERVER_CERTS) + [3] * len(fx.EXPIRED_CERTS) + [1] * len(fx.BAD_CERTS)
+CERTS = fx.SERVER_CERTS + fx.CLONE_CERTS + fx.EXPIRED_CERTS + fx.BAD_CERTS
+CW = [4] * len(fx.SERVER_CERTS) + [4] * len(fx.CLONE_CERTS) + [3] * len(fx.EXPIRED_CERTS) + [1] * len(fx.BAD_CERTS)
 
 
 def run_one(ch):
@@ -66,7 +67,7 @@ def run_one(ch):
     nops = 1 + ch.choose("nops", 12)
     model = {}
     st = {"hist": [], "changed": 0, "unreadable": 0, "redir": 0, "first": 0, "match": 0,
-          "import": 0, "mutation": 0, "upload": 0, "refetch": 0, "failing": 0, "concurrent": 0, "nearmiss": 0, "mixedcase": 0, "speakfirst": 0}
+          "import": 0, "mutation": 0, "upload": 0, "refetch": 0, "failing": 0, "concurrent": 0, "nearmiss": 0, "mixedcase": 0, "speakfirst": 0, "failedimport": 0, "overlapdiff": 0}
     revoked = set()
 
     def endpoint(label):
@@ -98,7 +99,7 @@ def run_one(ch):
                               tofu_db_path=pathlib.Path(w.db_path))
         db = client.tofu_db if tofu_on else TOFUDatabase(pathlib.Path(w.db_path))
         for i in range(nops):
-            op = ch.choose("op", 14, [10, 4, 2, 2, 2, 1, 1, 3, 8, 4, 1, 3, 3, 3])
+            op = ch.choose("op", 15, [10, 4, 2, 2, 2, 1, 1, 3, 8, 4, 1, 3, 3, 3, 3])
             if op in (0, 1, 2):
                 key = endpoint("ep")
                 kind = ["get", "upload", "delete"][op]
@@ -257,17 +258,39 @@ def run_one(ch):
                 st["hist"].append(f"import_toml merge={merge} conflict={cb} "
                                   f"{sorted((k[0], k[1], v[7:15]) for k, v in ents.items())}")
                 fn = None if cb is None else (lambda *a: cb == "accept")
-                db.import_toml(f, merge=merge, on_conflict=fn)
-                if not merge:
-                    model.clear()
-                for k, v in ents.items():
-                    if k not in model or cb == "accept":
-                        model[k] = v
+                broken = ch.chance("impdefect", 0.25)
+                if broken:
+                    # a LATER entry is malformed: the whole import must fail and change nothing
+                    data["hosts"]["zzz-broken:1965"] = {"hostname": "zzz-broken", "port": 1965,
+                                                        "fingerprint": "sha256:nothex",
+                                                        "first_seen": "x", "last_seen": "y"}
+                    f.write_bytes(tomli_w.dumps(data).encode())
+                    st["hist"][-1] += " [malformed last entry]"
+                    st["failedimport"] += 1
+                try:
+                    db.import_toml(f, merge=merge, on_conflict=fn)
+                    raised = False
+                except ValueError:
+                    raised = True
+                if broken != raised:
+                    res.violate("C03/import-outcome-unexpected",
+                                f"import with malformed entry={broken} raised={raised}",
+                                history=st["hist"][-6:])
+                if not broken:
+                    if not merge:
+                        model.clear()
+                    for k, v in ents.items():
+                        if k not in model or cb == "accept":
+                            model[k] = v
                 st["import"] += 1
                 st["mutation"] += 1
             elif op == 8:
                 key = endpoint("sw")
                 c = pool[ch.choose("swcert", len(pool), CW + [2] * (len(pool) - len(CW)))]
+                cur = w.servers[key].cert
+                if cur in fx.CLONE_CERTS and ch.chance("toclone", 0.6):
+                    # an impostor that copies issuer, subject and serial number
+                    c = fx.CLONE_CERTS[1 - fx.CLONE_CERTS.index(cur)]
                 w.servers[key].cert = c
                 st["hist"].append(f"env: {key[0]}:{key[1]} now presents {c}")
                 continue
@@ -291,6 +314,46 @@ def run_one(ch):
                 w.fail_mode[key] = ch.pick("failmode", [None, "close", "rst", "stall"], [2, 2, 2, 1])
                 st["hist"].append(f"env: {key[0]}:{key[1]} failure mode {w.fail_mode[key]}")
                 continue
+            elif op == 14 and tofu_on:
+                # two overlapping operations on ONE client to two DIFFERENT endpoints
+                k1, k2 = endpoint("od1"), endpoint("od2")
+                if k1 == k2 or any(w.redirect.get(k) is not None or w.fail_mode.get(k)
+                                   or w.speak_first.get(k) for k in (k1, k2)):
+                    continue
+                kinds = [ch.pick("odkind1", ["get", "upload"]), ch.pick("odkind2", ["get", "upload"])]
+                st["hist"].append(f"overlapping {kinds[0]} {url_of(k1)} + {kinds[1]} {url_of(k2)}")
+                st["overlapdiff"] += 1
+                exp = []
+                for k in (k1, k2):
+                    pres = w.servers[k].cert
+                    if pres in fx.BAD_CERTS:
+                        exp.append("err")
+                    elif model.get(k) is None:
+                        model[k] = fx.fp(pres)
+                        exp.append("resp")
+                    elif model[k] != fx.fp(pres):
+                        exp.append("changed")
+                    else:
+                        exp.append("resp")
+
+                async def od(k, kind):
+                    try:
+                        if kind == "get":
+                            r = await client.get(url_of(k, "/x"))
+                        else:
+                            r = await client.upload(url_of(k, "/up/f.txt"), b"data", token="t")
+                        ok = f"hello from {k[0]}:{k[1]}" in (r.body or "")
+                        return "resp" if ok else "wrong-resp"
+                    except CertificateChangedError:
+                        return "changed"
+                    except Exception:  # noqa
+                        return "err"
+                got2 = await asyncio.gather(od(k1, kinds[0]), od(k2, kinds[1]))
+                if list(got2) != exp:
+                    res.violate("C03/overlapping-operations-cross-talk",
+                                f"two overlapping operations to different endpoints: expected {exp}, "
+                                f"got {list(got2)}", step=st["hist"][-1], history=st["hist"][-8:],
+                                presented={f"{k[0]}:{k[1]}": w.servers[k].cert for k in (k1, k2)})
             elif op == 13:
                 key = endpoint("sf")
                 on = bool(ch.choose("sfon", 2))
@@ -350,7 +413,8 @@ def run_one(ch):
     st_map = {"cert_changed_detected": "changed", "unreadable_cert_presented": "unreadable",
               "redirect_hop_checked": "redir", "first_use_pinned": "first", "pinned_match": "match",
               "import_applied": "import", "upload_checked": "upload", "revoke_then_refetch": "refetch",
-              "first_use_on_failing_endpoint": "failing", "overlapping_first_use": "concurrent", "near_miss_pin_imported": "nearmiss", "mixed_case_host_spelling": "mixedcase", "server_speaks_first_tls12": "speakfirst"}
+              "first_use_on_failing_endpoint": "failing", "overlapping_first_use": "concurrent", "near_miss_pin_imported": "nearmiss", "mixed_case_host_spelling": "mixedcase", "server_speaks_first_tls12": "speakfirst", "failed_import_in_history": "failedimport",
+              "overlapping_ops_different_endpoints": "overlapdiff"}
     for probe, k in st_map.items():
         if st[k]:
             res.stats[probe] += 1
